@@ -1162,3 +1162,48 @@ def _mk_ascii(ranges):
 for _n, _r in _ASCII_CLASSES.items():
     for _p in ("core::num::<impl u8>::", "core::char::methods::<impl char>::"):
         M.exact[_p + _n] = _mk_ascii(_r)
+
+
+# adapters that yield a subset of the inner iterator's items, in order
+@M.reg("core::iter::traits::iterator::Iterator::step_by")
+def m_iter_step_by(ctx):
+    it = to_iter(ctx, ctx.args[0])
+    n = scalar_arg(ctx, ctx.args[1])
+    ctx.pre("step_by step != 0", n is not None and D.lo(ctx.S.ivof(n)) >= 1)
+    return Iter("skip", it, None, None, it.finite)
+
+
+@M.reg("core::iter::traits::iterator::Iterator::skip_while", "core::iter::traits::iterator::Iterator::take_while")
+def m_iter_skip_while(ctx):
+    it = to_iter(ctx, ctx.args[0])
+    if mutating_closure(ctx, ctx.args[1]):
+        ctx.pre("closure passed to an iterator adapter writes to captured state (not modelled)", False)
+    return Iter("filter", it, ctx.args[1], None, it.finite)
+
+
+@M.reg("core::str::<impl str>::split_once", "core::str::<impl str>::rsplit_once")
+def m_split_once(ctx):
+    S = ctx.S
+    v, ref = seq_of(ctx, ctx.args[0])
+    if not isinstance(v, Seq):
+        return ctx.top_ret()
+    parts = []
+    for tag in ("so0", "so1"):
+        ns = ctx.fresh(tag, ctx.I.len_rng(), D.rng(0, ctx.I.max_len()))
+        S.add_fact(Lin.var(ns).sub(S.term(v.len)))
+        parts.append(derived(ctx, Seq(v.kind, ns, v.elem, (), None, v.prov), tag))
+    return option(Struct("tuple", parts))
+
+
+@M.reg("core::cmp::Ordering::then_with", "core::cmp::Ordering::then")
+def m_ordering_then(ctx):
+    # Ordering::Equal => the other ordering (closure result), else self: any Ordering either way
+    if ctx.r["def"].endswith("then_with"):
+        f = ctx.args[1]
+        if mutating_closure(ctx, f):
+            ctx.pre("closure passed to a std combinator writes to captured state (not modelled)", False)
+        T = ctx.S.copy()
+        c2 = _sub_ctx(ctx, T, "tw")
+        call_callable(c2, f, [], "tw")
+        # the closure runs in a copy: it may not run at all, and its (pure) result is any Ordering
+    return ctx.top_ret()
